@@ -10,7 +10,8 @@ def signature(lines, off):
 
 
 def run(ctx):
-    ctx.model_check("report", "MCMetrics", "MCMetricsTime.cfg")
+    cases = os.path.join(ctx.scratch, "c10grid.ndjson")
+    ctx.model_check("report", "MCMetrics", "MCMetricsTime.cfg", env={"CASES_OUT": cases})
     ctx.model_check("report", "MCMetrics", "MCMetricsCodes.cfg")
     r = ctx.model_check("report", "MCMetrics", "MCMetricsOldMin.cfg", expect_ok=False)
     if "Invariant AccMatches is violated" not in r["out"]:
@@ -19,13 +20,13 @@ def run(ctx):
     vh = ctx.build_harness()
     md = ctx.build_maindrv()
     out = ctx.sub("c10")
-    ctx.run_driver(vh, "TestDrv_C10", out, {"VERIF_MAINDRV": md})
+    ctx.run_driver(vh, "TestDrv_C10", out, {"VERIF_MAINDRV": md, "VERIF_CASES": cases})
     n, nev, rej = core.validate_cases(ctx, "report", "MetricsTrace", "MetricsTrace.cfg", os.path.join(out, "c10.ndjson"))
     report_rejections(ctx, rej, signature, "metrics trace rejected by the Metrics reference")
     summ = json.load(open(os.path.join(out, "c10.summary.json")))
     ctx.coverage.update({
         "traces_validated_against_impl": n, "trace_events": nev, "multisets": summ["multisets"], "additions": summ["adds"],
-        "closes_compared": summ["closes"], "cli_reports": summ["cli_reports"], "samples": summ["samples"][:2] or ["(empty multisets only)"],
+        "closes_compared": summ["closes"], "cli_reports": summ["cli_reports"], "tlc_exported_histories_replayed_with_every_close_placement": summ["grid_cases"], "samples": summ["samples"][:2] or ["(empty multisets only)"],
         "rule": "multisets of sizes 0..5000 (thorough: 1e5): equal/increasing/few-valued/random timestamps, zero/tiny/huge latencies, any uint16 "
                 "status code, duplicate errors; each added in 4 orders (2 shuffles, in order, reversed) with random intermediate Close calls; "
                 "every Close (fields, JSON reporter, report command) is compared by TLC with the reference accumulators in BigNat arithmetic",
